@@ -32,7 +32,7 @@ Init == C!Init /\ done = [c \in Clients |-> 0]
 Next ==
   \E c \in Clients :
     \/ (done[c] < CallsEach /\ \E r \in Menu(c) : C!Begin(c, r) /\ done' = [done EXCEPT ![c] = @ + 1])
-    \/ ((C!Log(c) \/ C!Apply(c) \/ C!Refuse(c) \/ C!LogApply(c) \/ C!End(c)) /\ UNCHANGED done)
+    \/ ((C!Log(c) \/ C!Apply(c) \/ C!Refuse(c) \/ C!LogApply(c) \/ C!LogList(c) \/ C!LogDeniedCond(c) \/ C!ApplyCond(c) \/ C!LogAfter(c) \/ C!End(c)) /\ UNCHANGED done)
 
 TypeOK == C!TypeOK
 AuditBeforeEffect == C!AuditBeforeEffect
